@@ -20,7 +20,7 @@ import (
 
 func c16Stream(t *rapid.T, label string) *streamModel {
 	o := defaultStreamOpts()
-	o.smallPSI, o.maxPESLen, o.maxUnits = true, 900, 3
+	o.smallPSI, o.maxPESLen, o.maxUnits, o.zeroPayload = true, 900, 3, true
 	_ = label
 	return drawStream(t, o)
 }
